@@ -157,6 +157,7 @@ class Inliner:
         self.tree = tree
         self.helpers = {}      # name -> (FunctionDef, kind, class name or None)
         self.anywhere_returns = set()
+        self.generators = set()      # private generator helpers: inlined only at `yield from helper(...)`
         for st in tree.body:
             if isinstance(st, A.FUNC_TYPES):
                 self._cand(st, 'function', None)
@@ -177,8 +178,10 @@ class Inliner:
         n = fn.name
         if not n.startswith('_') or n.startswith('__') or n in PINNED_PRIVATE:
             return
-        if A.contains_yield(fn) or fn.args.vararg or fn.args.kwarg:
+        if fn.args.vararg or fn.args.kwarg:
             return
+        if A.contains_yield(fn):
+            self.generators.add(n)
         if any(isinstance(x, A.FUNC_TYPES + (ast.Lambda,)) for x in A.walk_stmts(fn.body)
                if x is not fn) and False:
             return
@@ -314,7 +317,13 @@ class Inliner:
         """returns replacement list or None"""
         call = None
         mode = None
-        if isinstance(st, ast.Expr) and isinstance(st.value, ast.Call):
+        yf = False
+        if isinstance(st, ast.Expr) and isinstance(st.value, ast.YieldFrom) and isinstance(st.value.value, ast.Call):
+            call, mode, yf = st.value.value, 'expr', True
+        elif isinstance(st, ast.Assign) and len(st.targets) == 1 and isinstance(st.value, ast.YieldFrom) \
+                and isinstance(st.value.value, ast.Call) and isinstance(st.targets[0], (ast.Name, ast.Attribute, ast.Tuple)):
+            call, mode, yf = st.value.value, 'assign', True
+        elif isinstance(st, ast.Expr) and isinstance(st.value, ast.Call):
             call, mode = st.value, 'expr'
         elif isinstance(st, ast.Return) and isinstance(st.value, ast.Call):
             call, mode = st.value, 'return'
@@ -326,7 +335,7 @@ class Inliner:
             # `a, b, c = helper(...)` where the helper ends in `return x, y, z` (its only return): the helper's locals
             # x, y, z simply become a, b, c
             m0 = self._match(st.value)
-            if m0 is not None and m0[0][0].name not in self.anywhere_returns:
+            if m0 is not None and m0[0][0].name not in self.anywhere_returns and m0[0][0].name not in self.generators:
                 hb = m0[0][3]
                 rets = [x for x in A.walk_stmts(hb) if isinstance(x, ast.Return)]
                 tg = [e.id for e in st.targets[0].elts]
@@ -356,6 +365,8 @@ class Inliner:
         if m is None:
             return None
         h, mapping = m
+        if (h[0].name in self.generators) != yf:
+            return None         # a generator helper is inlined exactly where it is delegated to with `yield from`
         if h[0].name in self.anywhere_returns and mode != 'return':
             return None
         pre, body = self._instantiate(h, mapping, caller_returns=(mode == 'return'))
@@ -394,7 +405,7 @@ class Inliner:
                     return c
                 h, mapping = m
                 fn, kind, cls, body = h
-                if fn.name in inl.anywhere_returns:
+                if fn.name in inl.anywhere_returns or fn.name in inl.generators:
                     return c
                 expr = _as_expression(_body(fn))
                 if expr is not None:
@@ -425,7 +436,7 @@ class Inliner:
         if not isinstance(last, (ast.Return, ast.Raise)):
             return None
         m = self._match(st.value)
-        if m is None:
+        if m is None or m[0][0].name in self.generators:
             return None
         h, mapping = m
         body = _body(h[0])
@@ -501,6 +512,14 @@ class Inliner:
         if not any(self.helpers.values()):
             return 0
         self.tree.body = self.run_block(self.tree.body)
+        # a helper all of whose uses were inlined is analysed through its callers only
+        for name, h in self.helpers.items():
+            if not h:
+                continue
+            fn = h[0]
+            left = [x for x in ast.walk(self.tree) if ((isinstance(x, ast.Name) and x.id == name) or (
+                isinstance(x, ast.Attribute) and x.attr == name)) and not any(x is y for y in ast.walk(fn))]
+            fn._fully_inlined = not left
         return self.count
 
 
@@ -1173,7 +1192,8 @@ def inline_partials(fn):
         for st in list(blk):
             if not (isinstance(st, ast.Assign) and len(st.targets) == 1 and isinstance(st.targets[0], ast.Name)
                     and isinstance(st.value, ast.Call) and (A.dotted(st.value.func) or '').split('.')[-1] == 'partial'
-                    and st.value.args and not st.value.keywords and all(_simple(a) for a in st.value.args)
+                    and st.value.args and all(k.arg is not None and _simple(k.value) for k in st.value.keywords)
+                    and all(_simple(a) for a in st.value.args)
                     and not any(isinstance(a, ast.Starred) for a in st.value.args)):
                 continue
             g = st.targets[0].id
@@ -1183,15 +1203,20 @@ def inline_partials(fn):
             if len(stores) != 1 or not calls or len(calls) != len(loads):
                 continue
             # the bound arguments must still denote the same objects at the calls
-            bound_names = {n_.id for a in st.value.args for n_ in ast.walk(a) if isinstance(n_, ast.Name)}
+            bound_names = {n_.id for a in list(st.value.args) + [k.value for k in st.value.keywords]
+                           for n_ in ast.walk(a) if isinstance(n_, ast.Name) and n_.id != 'self'}
             rebinds = [x for x in ast.walk(fn) if isinstance(x, ast.Name) and x.id in bound_names and isinstance(x.ctx, ast.Store)
                        and getattr(x, 'lineno', 0) > st.lineno]
             if rebinds:
                 continue
             f, pre = st.value.args[0], st.value.args[1:]
+            if st.value.keywords and any(k.arg is None for c in calls for k in c.keywords):
+                continue        # `**kw` at the call could collide with the partial's keywords
             for c in calls:
                 c.func = A.clone(f)
                 c.args = [A.clone(a) for a in pre] + c.args
+                own = {k.arg for k in c.keywords}
+                c.keywords = c.keywords + [A.clone(k) for k in st.value.keywords if k.arg not in own]
             blk.remove(st)
             if not blk:
                 blk.append(ast.copy_location(ast.Pass(), st))
@@ -1431,6 +1456,134 @@ def unswitch_loops(tree):
     return done
 
 
+def simplify_bool_tests(tree):
+    """in a test position only the truth value counts: `False if a else b` -> `not a and b`, `True if a else b` -> `a or b`,
+    `b if a else False` -> `a and b`, `b if a else True` -> `not a or b` (what an inlined chain of `if …: return False`
+    guards turns into)"""
+    done = 0
+    NEG = {ast.Is: ast.IsNot, ast.IsNot: ast.Is, ast.Eq: ast.NotEq, ast.NotEq: ast.Eq, ast.Lt: ast.GtE, ast.GtE: ast.Lt,
+           ast.Gt: ast.LtE, ast.LtE: ast.Gt, ast.In: ast.NotIn, ast.NotIn: ast.In}
+
+    def negate(t):
+        if isinstance(t, ast.UnaryOp) and isinstance(t.op, ast.Not):
+            return t.operand
+        if isinstance(t, ast.Compare) and len(t.ops) == 1 and type(t.ops[0]) in NEG:
+            return ast.copy_location(ast.Compare(left=t.left, ops=[NEG[type(t.ops[0])]()], comparators=t.comparators), t)
+        return ast.copy_location(ast.UnaryOp(op=ast.Not(), operand=t), t)
+
+    def boolop(op, vals, at):
+        flat = []
+        for v in vals:
+            if isinstance(v, ast.BoolOp) and isinstance(v.op, type(op)):
+                flat.extend(v.values)
+            else:
+                flat.append(v)
+        return ast.copy_location(ast.BoolOp(op=op, values=flat), at)
+
+    def simp(e):
+        nonlocal done
+        if isinstance(e, ast.IfExp):
+            a, b, c = simp(e.test), e.body, e.orelse
+            if isinstance(b, ast.Constant) and b.value is False:
+                done += 1
+                return boolop(ast.And(), [negate(a), simp(c)], e)
+            if isinstance(b, ast.Constant) and b.value is True:
+                done += 1
+                return boolop(ast.Or(), [a, simp(c)], e)
+            if isinstance(c, ast.Constant) and c.value is False:
+                done += 1
+                return boolop(ast.And(), [a, simp(b)], e)
+            if isinstance(c, ast.Constant) and c.value is True:
+                done += 1
+                return boolop(ast.Or(), [negate(a), simp(b)], e)
+            return e
+        if isinstance(e, ast.BoolOp):
+            e.values = [simp(v) for v in e.values]
+            return e
+        if isinstance(e, ast.UnaryOp) and isinstance(e.op, ast.Not):
+            e.operand = simp(e.operand)
+            return e
+        return e
+    for n in ast.walk(tree):
+        if isinstance(n, (ast.If, ast.While)):
+            n.test = simp(n.test)
+        elif isinstance(n, ast.Assert):
+            n.test = simp(n.test)
+    return done
+
+
+def unswitch_on_flag(tree):
+    """a loop whose body tests a parameter that is never rebound (`if with_key:` inside `for …`) is duplicated under that
+    test (`if with_key: loop[True] else: loop[False]`), and adjacent `if p: … else: …` statements on the same unmodified
+    parameter are merged: the merged-loop spelling of a stage becomes the two-loop spelling"""
+    done = 0
+
+    def flag_tests(node, p):
+        out = []
+        for x in A.walk_stmts([node]):
+            if isinstance(x, ast.If):
+                t, _neg = A.strip_not(x.test)
+                if A.is_name(t, p):
+                    out.append(x)
+        return out
+
+    def specialise(loop, p, value):
+        new = A.clone(loop)
+        for x in A.walk_stmts([new]):
+            if isinstance(x, ast.If):
+                t, neg = A.strip_not(x.test)
+                if A.is_name(t, p):
+                    x.test = ast.copy_location(ast.Constant(value=(value != neg)), x.test)
+        return new
+
+    for fn in [n for n in ast.walk(tree) if isinstance(n, A.FUNC_TYPES)]:
+        params = [a.arg for a in fn.args.posonlyargs + fn.args.args + fn.args.kwonlyargs]
+        stored = {x.id for x in ast.walk(fn) if isinstance(x, ast.Name) and isinstance(x.ctx, (ast.Store, ast.Del))}
+        flags = [p for p in params[1:] if p not in stored]
+        if not flags:
+            continue
+        for blk in _block_lists(fn):
+            i = 0
+            while i < len(blk):
+                st = blk[i]
+                if isinstance(st, (ast.For, ast.While)) and not st.orelse:
+                    for p in flags:
+                        if flag_tests(st, p) and not any(isinstance(x, A.FUNC_TYPES + (ast.Lambda,)) for x in A.walk_stmts(st.body)):
+                            new = ast.If(test=ast.Name(id=p, ctx=ast.Load()), body=[specialise(st, p, True)],
+                                         orelse=[specialise(st, p, False)])
+                            ast.copy_location(new, st)
+                            ast.copy_location(new.test, st)
+                            blk[i] = new
+                            done += 1
+                            break
+                i += 1
+        # merge adjacent ifs on the same flag
+        for blk in _block_lists(fn):
+            i = 0
+            while i < len(blk) - 1:
+                a_, b_ = blk[i], blk[i + 1]
+                if isinstance(a_, ast.If) and isinstance(b_, ast.If):
+                    ta, na = A.strip_not(a_.test)
+                    tb, nb = A.strip_not(b_.test)
+                    if isinstance(ta, ast.Name) and isinstance(tb, ast.Name) and ta.id == tb.id and ta.id in flags \
+                            and not (len(a_.orelse) == 1 and isinstance(a_.orelse[0], ast.If)) \
+                            and not (len(b_.orelse) == 1 and isinstance(b_.orelse[0], ast.If)):
+                        b_true, b_false = (b_.orelse, b_.body) if nb else (b_.body, b_.orelse)
+                        if na:
+                            a_.orelse = a_.orelse + b_true
+                            a_.body = a_.body + b_false
+                        else:
+                            a_.body = a_.body + b_true
+                            a_.orelse = a_.orelse + b_false
+                        if not a_.body:
+                            a_.body = [ast.copy_location(ast.Pass(), a_)]
+                        del blk[i + 1]
+                        done += 1
+                        continue
+                i += 1
+    return done
+
+
 def normalise(tree):
     """in-place normalisation of a module tree; returns statistics"""
     stats = {'helpers_inlined': 0, 'aliases_inlined': 0, 'loops_to_comprehensions': 0}
@@ -1439,6 +1592,8 @@ def normalise(tree):
     stats['priming_loops_rotated'] = rotate_priming_loops(tree)
     stats['else_after_exit_flattened'] = flatten_else_after_exit(tree)
     stats['helpers_inlined'] = Inliner(tree).run()
+    stats['unswitched_on_flag'] = unswitch_on_flag(tree)
+    stats['bool_tests_simplified'] = simplify_bool_tests(tree)
     stats['constant_ifs_folded'] = fold_constant_ifs(tree)
     stats['tidied'] = tidy_after_inlining(tree)
     stats['nested_ifs_merged'] = merge_nested_ifs(tree)
